@@ -131,9 +131,11 @@ IndexPos(v) == Cardinality({p \in 1..StreamLen : Log[cur.fl[p]].i < v})
 TimePos(v) == Cardinality({p \in 1..StreamLen : Log[cur.fl[p]].rx < v})
 BsCommon(e) == /\ Ev(e) /\ phase = "running" /\ cur.live /\ Cur.id = cur.id /\ cur.kind = "stream"
 OkBsearch == /\ BsCommon("ok_bsearch")
-             /\ IF Cur.key = "index" THEN Cur.val < Len(Log) /\ Cur.pos = IndexPos(Cur.val) ELSE Cur.pos = TimePos(Cur.val)
+             /\ IF Cur.key = "index"
+                THEN (IF Cur.val < Len(Log) THEN Cur.pos = IndexPos(Cur.val) ELSE Cur.pos = StreamLen)   \* beyond the end: saturating
+                ELSE Cur.pos = TimePos(Cur.val)
              /\ UNCHANGED <<case, phase, logline, nbig, cur, maxId, viol, kfUsed>>
-ErrBsearch == /\ BsCommon("err_bsearch") /\ Cur.key = "index" /\ Cur.val >= Len(Log)       \* no such message in the file
+ErrBsearch == /\ BsCommon("err_bsearch") /\ Cur.key = "index" /\ Cur.val >= Len(Log)       \* or: no such message in the file
               /\ UNCHANGED <<case, phase, logline, nbig, cur, maxId, viol, kfUsed>>
 KfIndexUnfiltered == /\ BsCommon("ok_bsearch") /\ KF_C16_IndexLookupUnfiltered /\ cur.unf /\ Cur.key = "index"
                      /\ Cur.val < Len(Log) /\ Cur.pos = 0 /\ IndexPos(Cur.val) # 0
